@@ -142,8 +142,12 @@ theorem fromBase64_spec (inp : List Nat) (hb : ∀ b ∈ inp, b < 256) :
         (by rw [List.length_replicate]; omega) with
       ⟨hs, hloop⟩ | ⟨vs, j', out', hs, hloop, htake⟩
     · rw [hloop, hs]; rfl
-    · rw [hloop, hs, Res.bind_ok]
+    · obtain ⟨r, hr, hbound⟩ := b64Loop_ok inp hb 0 0 inp.length (List.replicate (b64Reserve inp.length) 0)
+        (by omega) (by omega) (by rw [List.length_replicate]; omega) (by omega)
+      rw [hloop] at hr
+      injection hr with hr
+      rw [hloop, hs, Res.bind_ok]
       simp only [List.take_zero, List.nil_append] at htake
-      simp only [htake]
+      simp only [if_pos (hbound j' out' hr.symm), htake]
 
 end Nstd.Codec
